@@ -180,6 +180,35 @@ fail:
 	return 0, fmt.Errorf("too many: %d", n)
 }
 
+type Config struct {
+	Name string
+	Opts []Pair[string, int]
+}
+
+// closures in statement headers, composite literals wherever they may stand
+func headers(items []Config) (string, error) {
+	if err := func() error {
+		cfg := Config{Name: defaultName}
+		p := &Config{}
+		_, _ = cfg, p
+		return nil
+	}(); err != nil {
+		return "", err
+	}
+	for _, c := range func() []Config { return []Config{{Name: "a"}, Config{}} }() {
+		switch k := func() string { return Config{}.Name }(); k {
+		case (Config{}).Name, c.Name:
+			continue
+		}
+	}
+	if (Config{}) == (Config{Name: "x"}) || len(items) > 0 && items[0].Name == (Config{}.Name) {
+		return Config{}.Name, nil
+	}
+	for i := (Config{}).Name; i != ""; i = "" {
+	}
+	return "", nil
+}
+
 func variadic(prefix string, rest ...int) []int {
 	xs := append([]int{1, 2}, rest...)
 	ys := xs[1:len(xs):cap(xs)]
